@@ -3,7 +3,7 @@ from specs import KEYS, CHECKS, unit
 KEYS['keepclient_c11'] = {'pkg': 'sdk/go/keepclient'}
 
 CHECKS['C11'] = {
-    'ready': False,
+    'ready': True,
     'level': 'exploration',
     'rule': 'real KeepClient.PutB/PutHB/PutHR/PutR against an in-memory HTTPClient stub; a case = service set (1-5 writable, 0-2 read-only, '
             'disk/proxy/mixed, via LoadKeepServicesFromJSON or SetServiceRoots) x want 1-3 x Retries 0-3 x outcome table (service x attempt) over '
@@ -16,6 +16,8 @@ CHECKS['C11'] = {
     'assumptions': [
         'services are simulated at the HTTPClient interface (no sockets): a request whose body cannot be read completely or whose length differs from Content-Length is failed at connection level, as net/http does',
         'InsufficientReplicasError is a named interface type, so the error class cannot be told from other errors by type; only err != nil and the returned count are checked',
+        'a Put that has not returned 60 s after the last service answer, with no request pending anywhere, is reported as a violation (normal case duration is ~0.1 ms); no other wall-clock reading enters a verdict',
+        'completion order is made reproducible through the public DebugPrintf hook of the package (the client announces how many uploads are in flight before it waits); if the announcement is missing the harness falls back to releasing pending answers after a pause (label sched-fallback) - the oracle does not depend on which path scheduled the answers',
         'PutHR with dataBytes=0 is not generated (64 MiB buffer per call, no body is sent)',
     ],
     'units': [
